@@ -1,5 +1,7 @@
 // native replay oracle for C09: multi-stream bzip2 files read through osmium::io::Bzip2Decompressor from a file descriptor
 #include <osmium/io/bzip2_compression.hpp>
+#include <osmium/io/gzip_compression.hpp>
+#include <zlib.h>
 #include <bzlib.h>
 #include <fcntl.h>
 #include <unistd.h>
@@ -22,8 +24,35 @@ static int check(const std::vector<std::string>& plains, const char* what) {
     return 0;
 }
 
+// memory-buffer decompressor: a truncated buffer must give an error, a complete one the complete data
+static int check_buffer_truncation(std::mt19937_64& rng) {
+    const std::string plain = noise(rng, 60000); const std::string c = compress(plain);
+    for (size_t cut : {c.size(), c.size() - 1, c.size() - 10, c.size() / 2, c.size() / 3, size_t(30), size_t(4)}) {
+        osmium::io::Bzip2BufferDecompressor d{c.data(), cut}; std::string out; bool threw = false;
+        try { for (std::string s = d.read(); !s.empty(); s = d.read()) out += s; d.close(); } catch (const std::exception&) { threw = true; }
+        if (cut == c.size() ? (threw || out != plain) : !threw) {
+            std::printf("bzip2 memory buffer of %zu bytes cut to %zu bytes: %s, %zu of %zu bytes delivered (a truncated buffer is accepted as complete)\nARGV: bufsearch\n", c.size(), cut, threw ? "exception" : "no exception", out.size(), plain.size()); return 1; }
+    }
+    return 0;
+}
+
+static int check_gzip_buffer_truncation(std::mt19937_64& rng) {
+    const std::string plain = noise(rng, 60000);
+    z_stream z{}; deflateInit2(&z, 9, Z_DEFLATED, 15 + 16, 8, Z_DEFAULT_STRATEGY); std::string c(200000, '\0');
+    z.next_in = reinterpret_cast<Bytef*>(const_cast<char*>(plain.data())); z.avail_in = unsigned(plain.size()); z.next_out = reinterpret_cast<Bytef*>(&c[0]); z.avail_out = unsigned(c.size()); deflate(&z, Z_FINISH); c.resize(c.size() - z.avail_out); deflateEnd(&z);
+    for (size_t cut : {c.size(), c.size() - 1, c.size() / 2, size_t(40), size_t(15), size_t(10), size_t(5)}) {
+        osmium::io::GzipBufferDecompressor d{c.data(), cut}; std::string out; bool threw = false;
+        try { for (std::string s = d.read(); !s.empty(); s = d.read()) out += s; d.close(); } catch (const std::exception&) { threw = true; }
+        if (cut == c.size() ? (threw || out != plain) : !threw) {
+            std::printf("gzip memory buffer of %zu bytes cut to %zu bytes: %s, %zu of %zu bytes delivered (a truncated buffer is accepted as complete)\nARGV: bufsearch\n", c.size(), cut, threw ? "exception" : "no exception", out.size(), plain.size()); return 1; }
+    }
+    return 0;
+}
+
 int main(int argc, char** argv) {
     unsigned seed = argc > 2 ? unsigned(std::atoll(argv[2])) : 1; std::mt19937_64 rng(seed);
+    if (argc > 1 && std::string(argv[1]) == "bufsearch") return check_buffer_truncation(rng) || check_gzip_buffer_truncation(rng);
+    if (check_buffer_truncation(rng) || check_gzip_buffer_truncation(rng)) return 1;
     const size_t B = osmium::io::Decompressor::input_buffer_size;
     if (check({noise(rng, 20000), noise(rng, 300)}, "second stream inside the library's read-ahead")) return 1;
     if (check({noise(rng, 100), noise(rng, 100), noise(rng, 100), ""}, "several tiny streams, last one empty")) return 1;
